@@ -32,7 +32,7 @@ PROP = "C01"
 
 TASKS = []
 for _cfg in CL.CONFIGS:
-    TASKS.append(FnTask(PROP, f"C01.regex.{_cfg}", CL.regex_facts(_cfg), "regex", CL.native_lexer_search))
+    TASKS.append(FnTask(PROP, f"C01.regex.{_cfg}", CL.regex_facts(_cfg), "regex", CL.replay_regex))
     TASKS.append(FnTask(PROP, f"C01.tokeniter.prologue.{_cfg}", CL.prologue_task(_cfg), "path", CL.native_lexer_search))
     TASKS.append(FnTask(PROP, f"C01.tokeniter.{_cfg}", CL.tokeniter_config_task(_cfg), "path", CL.replay_tokeniter))
 TASKS += [CL.WrapVC(tok) for tok in CL.raw_token_types(CL.real_lexer("line")) + [None]]
